@@ -29,9 +29,10 @@
  *          to the next v, 2^64-1, and a dense range 0..N.
  *
  * --deep (given by ./check to the thorough tier only; bounds beyond thorough):
- *  int     the alphabet gains 'X' and 'F' (15 symbols: upper-case hex prefix
- *          and digit), length 0..6 as in thorough;  float  length 0..7 (the first length with a
- *          complete hex float "0x1.8p1");  human  humansize_parse strings of
+ *  int     the alphabet gains 'X', 'F' and 'Z' (16 symbols: upper-case hex
+ *          prefix, hex digit and largest base-36 digit), length 0..6 as in
+ *          thorough;  float  the alphabet gains 'E' (15 symbols), length 0..7 (the
+ *          first length with a complete hex float "0x1.8p1");  human  humansize_parse strings of
  *          length 0..8, humansize() on every size 0..30 000 000;  intgen as is.
  *          Explicit --len/--flen/--hlen/--dense still override.
  *
@@ -316,7 +317,7 @@ int_string(const char * s, const int * bases, int nbases)
 }
 
 static const char IALPHA_STD[] = " \t+-0179afxz.";
-static const char IALPHA_DEEP[] = " \t+-0179afxz.XF";	/* --deep: the same 13 symbols in the same order, then 'X' and 'F' */
+static const char IALPHA_DEEP[] = " \t+-0179afxz.XFZ";	/* --deep: the same 13 symbols in the same order, then 'X', 'F', 'Z' */
 static const char * IALPHA = IALPHA_STD;
 static int NIALPHA = 13;
 static const int IBASES[] = { 0, 2, 8, 10, 16, 36 };
@@ -663,8 +664,10 @@ flt_string(const char * s)
 		eval_flt(&c);
 }
 
-static const char FALPHA[] = "015.epx-+infa ";
-#define NFALPHA 14
+static const char FALPHA_STD[] = "015.epx-+infa ";
+static const char FALPHA_DEEP[] = "015.epx-+infa E";	/* --deep: the same 14 symbols in the same order, then 'E' */
+static const char * FALPHA = FALPHA_STD;
+static int NFALPHA = 14;
 static int flt_len = 5, flt_pre = 2;
 
 static void
@@ -1141,7 +1144,9 @@ main(int argc, char ** argv)
 			/* beyond thorough; a replay needs no flag (every record carries its string) */
 			deep = 1;
 			IALPHA = IALPHA_DEEP;
-			NIALPHA = 15;
+			NIALPHA = 16;
+			FALPHA = FALPHA_DEEP;
+			NFALPHA = 15;
 			int_len = 6;
 			flt_len = 7;
 			hs_len = 8;
@@ -1175,7 +1180,7 @@ main(int argc, char ** argv)
 		n = 1 + ipow(NIALPHA, int_pre);
 		vf_count("int.exhaustive", 0);
 		vf_info("int.bounds", "all strings over {SP TAB + - 0 1 7 9 a f x z .%s} of length 0..%d x base {0,2,8,10,16,36} x trailing {0,1} "
-		    "x 6 unsigned types x 8 bounds forms + 5 signed types x 7 bounds forms (+ PARSENUM spellings at base 0)", deep ? " X F" : "", int_len);
+		    "x 6 unsigned types x 8 bounds forms + 5 signed types x 7 bounds forms (+ PARSENUM spellings at base 0)", deep ? " X F Z" : "", int_len);
 		vf_parallel(n, int_unit);
 		if (!vf_deadline_hit() && vf_getcount("int.units_done") == n)
 			vf_setmax("int.exhaustive", 1);
@@ -1194,8 +1199,8 @@ main(int argc, char ** argv)
 		flt_pre = flt_len < 3 ? flt_len : 3;
 		n = 1 + ipow(NFALPHA, flt_pre);
 		vf_count("float.exhaustive", 0);
-		vf_info("float.bounds", "all strings over {0 1 5 . e p x - + i n f a SP} of length 0..%d + explicit list x trailing {0,1} "
-		    "x {float,double} x 9 bounds forms (+ PARSENUM spellings)", flt_len);
+		vf_info("float.bounds", "all strings over {0 1 5 . e p x - + i n f a SP%s} of length 0..%d + explicit list x trailing {0,1} "
+		    "x {float,double} x 9 bounds forms (+ PARSENUM spellings)", deep ? " E" : "", flt_len);
 		vf_parallel(n, flt_unit);
 		if (!vf_deadline_hit() && vf_getcount("float.units_done") == n)
 			vf_setmax("float.exhaustive", 1);
